@@ -15,7 +15,7 @@
 //
 //	c16 gen <cases>                          basm on the C05 generator (incl. sources with an unfit operand)
 //	c16 lib <root> <dyn|nodyn>               basm on every *.basm under <root>, each one standalone
-//	c16 files <kind> <dyn|nodyn> <minws|-> f1.basm f2.basm ...   basm on a file set (output of neuralbond / bmqsim + library)
+//	c16 files <kind> <dyn|nodyn> <minws|-|pb|minws+pb> f1.basm f2.basm ...   basm on a file set (output of neuralbond / bmqsim + library)
 //	c16 ops                                  `OPS <names of procbuilder.Allopcodes>`, then basm on one source per high-level
 //	                                         matcher pattern of every opcode (with and without -chooser-min-word-size)
 //	c16 text <file>                          basm on one source (replay)
@@ -84,8 +84,14 @@ func main() {
 		fmt.Fprintln(os.Stderr, "usage: c16 gen <n> | lib <root> <dyn|nodyn> | files <kind> <dyn|nodyn> <minws|-> f... | text <file> | json <kind> <what> <bm.json>")
 		os.Exit(2)
 	}
+	basmdump.RomsizeWithData = basmdump.ProbeRomsizeData()
 	switch os.Args[1] {
 	case "gen":
+		rsd := 0
+		if basmdump.RomsizeWithData {
+			rsd = 1
+		}
+		out.Line("MODE romsizedata=%d", rsd)
 		n, _ := strconv.Atoi(os.Args[2])
 		r := common.NewRng(common.Seed())
 		for i := 0; i < n; i++ {
@@ -135,7 +141,11 @@ func main() {
 	case "files":
 		kind := os.Args[2]
 		dyn := os.Args[3] == "dyn"
-		minws := os.Args[4] == "minws"
+		minws := strings.Contains(os.Args[4], "minws")
+		if strings.Contains(os.Args[4], "pb") {
+			// the front-end that wrote these files connects every port it creates (bmqsim's matrix machines)
+			extraLines = append(extraLines, "PB")
+		}
 		files := os.Args[5:]
 		bm, stage, err := basmdump.AssembleFiles(files, basmdump.Options{DisableDynamic: !dyn, MinWordSize: minws})
 		names := make([]string, len(files))
